@@ -1,4 +1,5 @@
 //! E2/E3: harness-owned network between two real endpoints, and independent wire readers.
+pub mod coalesce;
 pub mod fault;
 pub mod rig;
 pub mod wire;
